@@ -217,7 +217,7 @@ func Run(r *core.Run) {
 		window bool
 	}
 	var bcs []builderCase
-	for _, kt := range keys.Types {
+	for _, kt := range append(append([]string{}, keys.Types...), "secp256k1/leading-zero", "P-256/leading-zero") {
 		for _, code := range []uint{18, 19} {
 			for _, a := range append([]string{""}, actions...) {
 				for oi, o := range []any{nil, "origin.example"} {
@@ -231,7 +231,13 @@ func Run(r *core.Run) {
 		id := fmt.Sprintf("builders/%s/%d/%s/origin=%v", bc.kt, bc.code, bc.action, bc.origin != nil)
 		r.Case(id, func() *core.Fail {
 			w := newWorld([]uint{bc.code})
-			rec, upd, upd2, rec2, upd3 := keys.New(bc.kt, 610), keys.New(bc.kt, 611), keys.New(bc.kt, 612), keys.New(bc.kt, 613), keys.New(bc.kt, 614)
+			mk := func(i int) *keys.Key {
+				if t, lz := strings.CutSuffix(bc.kt, "/leading-zero"); lz {
+					return keys.WithLeadingZero(t, i-610) // keys one of whose coordinates begins with a zero byte
+				}
+				return keys.New(bc.kt, i)
+			}
+			rec, upd, upd2, rec2, upd3 := mk(610), mk(611), mk(612), mk(613), mk(614)
 			jwkOf := func(k *keys.Key) *jws.JWK { return newSigner(k).PublicKeyJWK() }
 			cm := func(k *keys.Key) string { c, _ := commitment.GetCommitment(jwkOf(k), bc.code); return c }
 			rv := func(k *keys.Key) string { c, _ := commitment.GetRevealValue(jwkOf(k), bc.code); return c }
